@@ -129,3 +129,15 @@ func vs_anyConstraint(m *spec.Schema) bool {
 		m.MaxItems != nil || m.MinItems != nil || m.UniqueItems ||
 		m.MaxProperties != nil || m.MinProperties != nil || len(m.PatternProperties) > 0
 }
+
+// vs_conflictPkg: package names the generated server and client already import or use as
+// variables (docs: "package names conflicting with standard imports are renamed").
+func vs_conflictPkg(pkg string) bool {
+	switch pkg {
+	case "api", "httptransport", "formats", "server",
+		"errors", "runtime", "middleware", "security", "spec", "strfmt", "loads", "swag", "validate",
+		"tls", "http", "fmt", "strings", "log", "flags", "pflag", "json", "time":
+		return true
+	}
+	return false
+}
